@@ -55,7 +55,7 @@ CHECKS.update({
  "C13": dict(cat="model_checking", tech="TLC enumerates the parameter universe of spec/Params.tla (Build action, design invariant PrefixClosed); every object is built through the real builder/HeContext::new and the recorded outcome validated by TLC against Pre, the chain rules and the constant definitions (trace validation)",
    text="Exhaustive small-parameter universe (quick ~23k, thorough ~10^6 objects: schemes x degrees incl. 0/3/non-power-of-two x moduli lists incl. composites, duplicates, non-NTT x plain moduli x security level x expansion x special-prime flag). "
         "TLC checks for every object: construction does not panic; parameters_set => documented preconditions on every level, chain = prefix moduli sets with indices decreasing to 0 and consistent prev/next links, "
-        "per-level constants equal their definitions, ids reproducible (rebuild and via serialized parameters) and collision-free; otherwise a specific error. Generated moduli: distinct primes of exact size = 1 mod 2N.",
+        "per-level constants equal their definitions, ids reproducible (rebuild and via serialized parameters) and collision-free; otherwise a specific error. Generated moduli: distinct primes of exact size = 1 mod 2N; primality at 25..60 bits decided by TLC through Miller-Rabin certificates (spec/Primes.tla, 12 bases, every modular step verified on exact integers).",
    ref="DESIGN.md 4/C13", note="Trusted: TLC, spec/Params.tla, the projection in harness/src/c13.rs. Accepted contexts with 60-bit moduli do not fit native TLC integers and are outside this check (C01-C07 exercise them); SHA-256 collision freedom beyond the universe is assumed."),
  "C17": dict(cat="model_checking", tech="TLC model-checks spec/KeyCache.tla and spec/GaloisCache.tla (safety + liveness, deviation refuted; inductive invariants for any number of threads proved with TLAPS); every interleaving is replayed on real threads through a deterministic scheduler on the verif-hooks yield points; free runs validated against spec/Trace_Cache.tla",
    text="All interleavings of the lock phases of 2-3 threads (thorough: all requested-power combinations, 4 threads sampled) sharing one Decryptor / KeyGenerator / Galois tool: ~59k forced schedules (quick). After every step the yield site and the cache "
